@@ -447,8 +447,11 @@ pub fn run_schedule(sc: &Scenario, schedule: &[usize]) -> RunObs {
             None if sc.no_query => {}
             None => obs.violation = Some(("query-no-result".into(), "query actor finished without a result".into())),
             Some(Err((kind, msg))) => {
+                // which maintenance the scenario has besides the flush: a recorded finding names its
+                // scenario class, the same failure in another class is a different signature
+                let ctx = format!("{}{}", if sc.with_evict { "+E" } else { "" }, if sc.cold { "+cold" } else { "" });
                 obs.violation = Some((
-                    format!("query-failed:{}:{}:{}", kind, crate::c03::norm_msg(&msg), panics.first().map(panic_site).unwrap_or_default()),
+                    format!("query-failed:{}:{}:{}:{}", kind, crate::c03::norm_msg(&msg), panics.first().map(panic_site).unwrap_or_default(), ctx),
                     format!("{} failed during concurrent activity: {}: {}; database panics {:?}", sc.query, kind, msg, panics.iter().map(|p| format!("{} {}", panic_site(p), p.message)).collect::<Vec<_>>()),
                 ))
             }
